@@ -14,7 +14,7 @@ RULE = ('one case = one scripted server with a moduli policy (subset of {512,768
         'OpenSSH, Dropbear or unknown banner, audited for real (quick: all subsets of size <= 2 and all suffix subsets; thorough: all 511 subsets).  Oracle: reported size == model(min over the fixed probe sequence of what the policy hands out; '
         'OpenSSH + 2048 => answer to the 2048-3072-4096 probe) and == the same function of the GEX_REQUESTs the peer actually logged; differential 2048/3072 threshold oracle against a 4096-bit baseline; '
         'refusing / stalling / garbage servers get no size, and so does an OpenSSH server whose fallback answered 2048 but whose follow-up probe (alone) is refused, stalled, truncated or garbled.  Non-trivial: >= 1 GEX_REQUEST logged and a size verdict compared; distinct = distinct (policy, algorithms, banner)')
-REQUIRED = {'verdicts_with_per_algorithm_moduli': 6, 'moduli_with_leading_ones': 20, 'sizes_not_multiple_of_8': 10, 'followup_faults_observed': 5, 'multi_target_sizes': 8, 'gex_requests_logged': 200, 'size_verdicts': 40, 'below_2048': 5, 'warn_band': 5, 'no_size_expected': 5, 'openssh_second_pass': 3, 'fault_cases': 3}
+REQUIRED = {'verdicts_with_per_algorithm_moduli': 6, 'moduli_with_leading_ones': 20, 'moduli_behind_debug_messages': 15, 'sizes_not_multiple_of_8': 10, 'followup_faults_observed': 5, 'multi_target_sizes': 8, 'gex_requests_logged': 200, 'size_verdicts': 40, 'below_2048': 5, 'warn_band': 5, 'no_size_expected': 5, 'openssh_second_pass': 3, 'fault_cases': 3}
 ASSUMPTIONS = ['moduli policies are monotone (a larger request never yields a smaller modulus)',
                'for sizes below 2048 only "at least one extra failure note" is demanded (the tool replaces the generic SHA-1 failure text of the sha1 variant by the size text)',
                'the OpenSSH explanatory note is demanded only when the follow-up probe returns a size different from 2048']
@@ -62,7 +62,7 @@ def cases(tier, seed):
                 combos = [(b, a) for b in ('openssh', 'dropbear', 'unknown') for a in ([GEX256], [GEX1], [GEX256, GEX1])]
             for b, a in combos:
                 i += 1
-                cs.append({'kind': 'policy', 'sizes': s, 'style': style, 'banner': b, 'algs': a, 'render': 'json' if i % 3 == 0 else 'text', 'top_ones': i % 4 == 1})
+                cs.append({'kind': 'policy', 'sizes': s, 'style': style, 'banner': b, 'algs': a, 'render': 'json' if i % 3 == 0 else 'text', 'top_ones': i % 4 == 1, 'chatter': [2, 3, 1, 7][(i // 5) % 4] if i % 5 == 2 else 0})
     for i, order in enumerate([[2048, 4096, 1024], [1024, 2048, 4096, 3072], [4096, 2048, 2048, 8192], [3072, 1024, 2048]] if tier == 'quick' else [list(p_) for p_ in itertools.permutations([1024, 2048, 3072, 4096], 3)]):
         cs.append({'kind': 'multi', 'order': order, 'threads': [1, 2][i % 2], 'algs': [[GEX256], [GEX1, GEX256]][i % 2], 'render': ['json', 'text'][i % 2], 'style': 'strict', 'banner': 'unknown'})
     # the two group-exchange algorithms answered from different moduli files: what the probes of one found (size, fallback, follow-up) says nothing about the other
@@ -217,7 +217,7 @@ def run_case(c):
         return run_multi(c)
     gex = {'sizes': c['sizes'], 'style': c['style'], 'top_ones': bool(c.get('top_ones'))} if c['kind'] == 'policy' else c['gex'] if c.get('gex') else ({'sizes': [2048, 4096], 'style': 'strict'} if c['fault'] != 'refuse' else None)
     script = {'banner': BANNERS[c['banner']], 'kex': audit.sym_kex(['curve25519-sha256'] + c['algs'], ['ssh-ed25519'], ['aes128-ctr'], ['hmac-sha2-256']),
-              'hostkeys': {'ssh-ed25519': {'type': 'ed25519'}}, 'gex': gex, 'linger': 6}
+              'hostkeys': {'ssh-ed25519': {'type': 'ed25519'}}, 'gex': gex, 'linger': 6, 'reply_debug': c.get('chatter', 0)}   # chatter: SSH_MSG_DEBUG messages in front of every group and reply
     if c['kind'] == 'fault' and c['f']:
         script['faults'] = [dict(c['f'], conn='*')]
     if c.get('gex_by_alg'):
@@ -284,6 +284,7 @@ def run_case(c):
         counters['warn_band'] = counters.get('warn_band', 0) + (band == 'warn')
         counters['sizes_not_multiple_of_8'] = counters.get('sizes_not_multiple_of_8', 0) + (want % 8 != 0)
         counters['moduli_with_leading_ones'] = counters.get('moduli_with_leading_ones', 0) + bool(c.get('top_ones'))
+        counters['moduli_behind_debug_messages'] = counters.get('moduli_behind_debug_messages', 0) + bool(c.get('chatter'))
         counters['verdicts_with_per_algorithm_moduli'] = counters.get('verdicts_with_per_algorithm_moduli', 0) + bool(c.get('gex_by_alg'))
         ok = True
         if band == 'fail':
